@@ -83,7 +83,7 @@ CHECKS.update({
     "C01": _trav("C01", "Monitor: at every start, each required non-root state of a non-permanent object is in the worker's own pool or in a pool the test is instructed and permitted to read, unless its producer (or the object's creation) was attempted in this run and did not pass; evaluated on the store model."),
     "C02": _trav("C02", "Monitor: every coroutine returns without exception, no livelock (all live workers backing off with nobody running) and no step-bound overrun; every selected compatible test was executed and no result is left UNKNOWN; a dry run executes nothing and makes no state request. Outcomes include 'never reported'."),
     "C03": _trav("C03", "Monitor: executions grouped by worker-invariant name and reuse scope (global / per swarm / per worker from pool_scope and spawner) never exceed max(1, max_tries); a setup test whose states were all found at its first examination is not executed in that scope; clone sources and flat tests never execute."),
-    "C04": _trav("C04", "Monitor: executions of one test (the two creation steps of an object counted as one) by different workers of a scope overlap at most max_concurrent_tries times; no worker enters between the two creation steps of another. Choice-mode part only: the back-off budget cannot expire within K polls; the budget arithmetic in virtual time is not covered yet."),
+    "C04": _trav("C04", "Monitor: executions of one test (the two creation steps of an object counted as one) by different workers of a scope overlap at most max_concurrent_tries times; no worker enters between the two creation steps of another. In addition to choice mode, virtual-time plans give every execution a symbolic real duration in (0, test_timeout) and let the solver decide the order of wake-ups (one path = one feasible event order for all durations consistent with it), which covers the back-off budget arithmetic; those plans are capped by time and report exhaustive=false when not completed."),
     "C05": _trav("C05", "Monitor: every unset request addresses a state marked removable (unset_mode f.), is issued while no execution needing or producing it runs and no dependant starts afterwards; with pool_filter=reuse no copy (get) request is made while backing out."),
     "C08": _trav("C08", "Monitor: at every start the executing worker is the node's net with its own nets_* parameters and is not excluded by restrictions; for each required state the named sources are exactly the shared pool plus the workers that produced it in this run (PASS/WARN), with those workers' access parameters."),
     "C06": dict(
